@@ -82,7 +82,7 @@ func sceneCall() {
 func sceneDefine() {
 	k, ctx := vf.Env()
 	ctx, _, _ = Block(ctx)
-	names := []string{"a", "ab", "abc"}
+	names := []string{"Ab", "ab", "abc"} // names differing only in case are different names
 	have := names[vf.Choice("existing", 3)]
 	author0 := vf.Addr("author0", 20)
 	k.SetServiceDefinition(ctx, types.NewServiceDefinition(have, "d0", []string{"t"}, author0, "ad0", Schemas))
